@@ -201,6 +201,7 @@ public:
 #if ONETBB_VERIF_SIM
 extern "C" std::uint64_t sim_machine_time_stamp(void);
 extern "C" void sim_probe(const char* name);
+extern "C" void sim_tso_region(const void* p, std::size_t n, int on);
 // verification hook: reach counter for rare branches ("this window was hit")
 #define ONETBB_VERIF_PROBE(name) sim_probe(name)
 #else
